@@ -310,6 +310,44 @@ def rule_R1_options(ctx):
     ctx.check(okws, "R5", "wscale-decode", "wscale = first payload byte of the WS option", "window scale is not taken from the WS option payload", ctx.loc(b))
 
 
+def _mtu_nf(t, depth=0):
+    """compact normal form of the MTU expression (operands of + sorted)"""
+    t = T.strip(t)
+    if depth > 12:
+        return "..."
+    k = T.fold_int(t)
+    if k is not None:
+        return str(k)
+    while t[0] == "cast":
+        t = T.strip(t[2])
+    if t[0] == "param":
+        return t[2]
+    if t[0] == "phi":
+        return "(" + "|".join(sorted({_mtu_nf(x, depth + 1) for x in t[1]})) + ")"
+    if t[0] == "loopvar":
+        return "(" + "|".join(sorted({_mtu_nf(x, depth + 1) for x in (t[3] if len(t) > 3 and isinstance(t[3], (list, tuple)) else [])})) + ")" if False else "var"
+    if t[0] == "call":
+        last = t[1].rsplit("::", 1)[-1]
+        if last.startswith("get_"):
+            return last[4:]
+        op = {"saturating_add": "+", "wrapping_add": "+", "checked_add": "+", "saturating_sub": "-", "saturating_mul": "*", "wrapping_mul": "*"}.get(last)
+        if op and len(t[2]) == 2:
+            a, c = _mtu_nf(t[2][0], depth + 1), _mtu_nf(t[2][1], depth + 1)
+            if op in "+*":
+                a, c = sorted((a, c))
+            return "%s%s%s" % (a, op, c) if op == "*" else "(%s%s%s)" % (a, op, c)
+        return last + "(" + ",".join(_mtu_nf(a, depth + 1) for a in t[2][:2]) + ")"
+    if t[0] == "binop":
+        op = {"Add": "+", "Sub": "-", "Mul": "*"}.get(t[1].replace("WithOverflow", ""), t[1])
+        a, c = _mtu_nf(t[2], depth + 1), _mtu_nf(t[3], depth + 1)
+        if op in "+*":
+            a, c = sorted((a, c))
+        return "(%s%s%s)" % (a, op, c)
+    if t[0] == "field":
+        return _mtu_nf(t[1], depth + 1)
+    return T.pp(t)[:20]
+
+
 def rule_R3_R4_R5(ctx):
     P = ctx.program
     b = P.body(TP + "visit_tcp")
@@ -435,7 +473,8 @@ def rule_R3_R4_R5(ctx):
         params = {x[2] for x in T.params_in(val)}
         accessors = sorted({x[1].rsplit("::", 1)[-1] for x in T.calls_in(val) if "::get_" in x[1]})
         dep = sorted((params - {"mss"}) | set(accessors))
-        ctx.check(params <= {"mss"} and not accessors, "R4", fn + ":depends" + (":" + "+".join(dep) if dep else ""),
+        # the finding is pinned to the expression: a different wrong formula at the same place is a different violation
+        ctx.check(params <= {"mss"} and not accessors, "R4", fn + ":depends" + (":" + _mtu_nf(val) if dep else ""),
                   "MTU = f(MSS, constants)",
                   "the reported MTU also depends on %s: MSS 1460 with a 20-byte IP header and TCP options yields 1504 instead of MSS + minimal IP and TCP "
                   "header sizes, so the link label lookup misses" % sorted((params - {"mss"}) | set(accessors)), ctx.loc(mb, mi))
